@@ -276,8 +276,9 @@ QUICK_DENY = [
 SLOW_FIRST = [r"skein1024", r"jh_e8::", r"iv_contract", r"groestl_core::", r"1024", r"blake_core::wiring", r"512", r"refill4", r"n(320|321|319|257|258)$"]
 QUICK_ONLY = {
     # C08 quick: the c08_ harnesses only (the c05_*_N_default_reset output-size variants stay with C05), Skein-1024 by
-    # its two lazy-buffer boundary shapes, clone once per state width
-    "C08": {"hashes": r"::c08_(?!skein1024_128_(default_reset|clone_|update_p128_n1$|update_p0_n129$))(?!(blake224|blake384|groestl224|groestl384|jh224|jh384|jh512)_clone_)\w+_(default_reset|clone_p\d+_n\d+|update_p0_n(32|33|64|65|128|129)|update_p(31|32|63|64|127|128)_n(0|1)|update_p(32|64)_n(32|64))$"},
+    # its lazy-buffer boundary shape, clone once per state width, update shapes for one type per state width
+    # (the 224/384-bit types are the same update code), reset for every type
+    "C08": {"hashes": r"::c08_(?!skein1024_128_(default_reset|clone_|update_p128_n1$|update_p0_n129$))(?!(blake224|blake384|groestl224|groestl384|jh224|jh384|jh512)_clone_)(?!(blake224|blake384|groestl224|groestl384|jh224|jh384)_update_)\w+_(default_reset|clone_p\d+_n\d+|update_p0_n(32|33|64|65|128|129)|update_p(31|32|63|64|127|128)_n(0|1)|update_p(32|64)_n(32|64))$"},
     "C17": {"hashes": r"(blake\d+|groestl\d+|jh\d+|skein(256_32|512_64|1024_128))_(finalize_p(0|31|32|63|64|127|128)|update_p0_n(32|64|128))$"},
     "C03": {"hashes": r"(c04_(round|diag)|c04_finalize_|c04_put_block256_|c06_ss_l_leaf)", "hashes_generic": r"(c04_(round|diag)|c04_finalize_|c04_put_block256_|c06_ss_l_leaf)"},
     "C16": {"hashes": r"(c04_finalize_l[04]|c04_put_block256_l4|c07_wiring_tf512|c07_wiring_of512|finalize_p0$)"},
